@@ -7,6 +7,7 @@ import Drv.LinearScoring
 import Drv.Linear
 import Drv.FA
 import Drv.Own
+import Drv.Rng
 open Lean Drv
 
 def dispatch (j : Json) : Json :=
@@ -28,6 +29,7 @@ def dispatch (j : Json) : Json :=
   | "fa_blocks" => opFaBlocks j
   | "fa_score" => opFaScore j
   | "own_check" => opOwnCheck j
+  | "rng_keys" => opRngKeys j
   | "kmeans_dist" => opKMeansDist j
   | "kmeans_vw" => opKMeansVW j
   | op => obj [("err", Json.str s!"bad-op {op}")]
